@@ -176,14 +176,22 @@ def recorder (ws : List (Nat ⊕ Bytes)) : Nat × Bytes :=
     | .inr b => (acc.1.orElse fun _ => some 200, acc.2 ++ b)) (none, [])
   (st.getD 200, body)
 
-def summary (n : Nat) (tr : List Obs) : String :=
+/-- modes `d0`, `d1`: the middleware's own level is below the logger's minimum, so its two
+records ("started", "finished") are not emitted; nothing else changes -/
+def isMwRecord : Obs → Bool
+  | .started .. => true
+  | .finished .. => true
+  | _ => false
+
+def summary (disabled : Bool) (n : Nat) (tr : List Obs) : String :=
+  let tr := if disabled then tr.filter (fun o => !isMwRecord o) else tr
   joinWith ";" ((List.range n).map fun i =>
     let (code, body) := recorder (received i tr)
     s!"{joinWith "," (tr.filterMap (evOf i))}|cli={code}/{hexEncode body}")
 
 def mwCase (args : List String) : String :=
   match args with
-  | [_p, _mode, seed, reqs] =>
+  | [_p, mode, seed, reqs] =>
     match seed.toNat?, allSome ((reqs.splitOn ";").map parseReq) with
     | some sd, some rs =>
       let inp : Rid → ReqData := fun i => ((rs[i]?).map (·.data)).getD ⟨[], [], [], [], []⟩
@@ -192,7 +200,7 @@ def mwCase (args : List String) : String :=
       let sc := schedLoop inp n fuel
         { st := init, scripts := (rs.map (·.script)).toArray, rng := sd, obs := [], excl := true, stuck := false }
       if sc.stuck then "MODEL-STUCK"
-      else summary n sc.obs.reverse ++ " excl=" ++ (if sc.excl then "ok" else "VIOLATED")
+      else summary (mode.startsWith "d") n sc.obs.reverse ++ " excl=" ++ (if sc.excl then "ok" else "VIOLATED")
     | _, _ => "bad-op"
   | _ => "bad-op"
 
